@@ -129,7 +129,7 @@ func short(a []int) []int {
 	return a
 }
 
-var gchoices = []int{1, 1, 2, 3, 4, 8, 64, 500}
+var gchoices = []int{1, 1, 2, 3, 4, 8, 64, 500, 0}
 
 func gen(t *rapid.T, big int) scen.Case {
 	S := scen.GenSlice(t)
@@ -158,9 +158,10 @@ func gen(t *rapid.T, big int) scen.Case {
 		c.NRec = rapid.IntRange(13, 300).Draw(t, "nrecbig")
 	}
 	c.DirName = rapid.SampledFrom(scen.DirNames).Draw(t, "dirname")
-	c.Index = rapid.SampledFrom([]string{"", "", "", "my set.par2", "arch[1].par2", "x.y.par2", "q?.par2", "set.PAR2.par2"}).Draw(t, "index")
+	c.Index = rapid.SampledFrom(scen.IndexNames).Draw(t, "index")
 	c.GCreate = rapid.SampledFrom(gchoices).Draw(t, "gc")
 	c.GRepair = rapid.SampledFrom(gchoices).Draw(t, "gr")
+	c.Procs = rapid.SampledFrom([]int{0, 0, 0, 1, 2, 5}).Draw(t, "procs")
 	c.DoubleCheck = rapid.Bool().Draw(t, "dc")
 	nd := rapid.IntRange(1, 6).Draw(t, "ndamage")
 	if rapid.IntRange(0, 2).Draw(t, "fewdamage") > 0 {
